@@ -98,6 +98,7 @@ fn has_float(j: &J) -> bool {
 }
 
 pub fn check(ctx: &mut Ctx) {
+    check_live_reapplication(ctx);
     let n = ctx.budget(2000, 80000);
     for _ in 0..n {
         let mut r = ctx.rng.fork();
@@ -271,6 +272,49 @@ pub fn check(ctx: &mut Ctx) {
             );
         } else {
             ctx.case("stagewise", &key, "pass", info);
+        }
+    }
+}
+
+/// On a terminal the stages after the first aggregation are applied again for every frame, to the
+/// table as it stands: each application must be to the COMPLETE CURRENT output of the stages before
+/// (no state of an earlier frame may survive). Checked on the last frame: it must be what a
+/// non-terminal run (one application, at end of input) prints.
+fn check_live_reapplication(ctx: &mut Ctx) {
+    let n = ctx.budget(160, 4000);
+    for _ in 0..n {
+        let mut r = ctx.rng.fork();
+        // tables that shrink, empty out or change keys while input streams in
+        let q = (*r.pick(&[
+            "* | json | count by k | where _count < 2 | count",
+            "* | json | count by k | where _count < 3 | sum(_count) as s",
+            "* | json | sort by n | limit -1 | where n < 5 | sum(n) as s",
+            "* | json | count as c by k | count as groups by c",
+            "* | json | count by k | where _count < 2",
+            "* | json | count by k | where _count < 2 | total(_count) as t",
+            "* | json | sum(n) as s by k | where s < 6 | count, max(s)",
+            "* | json | count by k | limit 2 | count",
+            "* | json | count by k, n | where _count > 1 | count by k",
+            "* | json | sort by n desc | limit 3 | count by k | sort by k",
+            "* | json | count by k | sort by k | limit -2 | where _count < 3 | count",
+        ]))
+        .to_string();
+        let nrows = 3 + r.below(14);
+        let input = agg_docs(&mut r, nrows);
+        let key = ckey(&q, &input);
+        let info = serde_json::json!({"query": q, "input": String::from_utf8_lossy(&input)});
+        let plain = super::c16::run_pipeline(&q, &input, None, false, 1, 100, vec![]);
+        let live = super::c16::run_pipeline(&q, &input, Some((60, 200)), true, r.next(), *r.pick(&[100usize, 100, 50]), vec![]);
+        if !plain.compiled || !live.compiled || plain.panicked.is_some() || live.panicked.is_some() || plain.hung || live.hung {
+            ctx.case("live-reapplication", &key, "viol", serde_json::json!({"class": "", "what": "run did not complete", "panic": live.panicked.or(plain.panicked), "case": info}));
+            continue;
+        }
+        let frames = super::c16::split_frames(&String::from_utf8_lossy(&live.bytes));
+        let last = frames.last().cloned().unwrap_or_default();
+        let plain_text = String::from_utf8_lossy(&plain.bytes).to_string();
+        match super::c16::frame_vs_plain(&last, &plain_text, 200, 60, true) {
+            None => ctx.case("live-reapplication", &key, "pass", serde_json::json!({"query": q, "frames": frames.len()})),
+            Some(why) => ctx.case("live-reapplication", &key, "viol", serde_json::json!({"class": "", "what": format!("after {} frames the last frame is not the pipeline applied to the complete input: {}", frames.len(), why), "last_frame": last, "non_terminal_output": plain_text, "case": info})),
         }
     }
 }
